@@ -269,6 +269,16 @@ func arityKeys(keys []string, n int) []string {
 
 func (fc *FnCtx) havocCall(st *State, call *ast.CallExpr, what string) []Val {
 	fc.unmodelled[what] = true
+	// an unmodelled callee may write through every pointer it is handed
+	for _, a := range call.Args {
+		if t := fc.typeOf(a); t != nil {
+			if _, isPtr := t.Underlying().(*types.Pointer); isPtr {
+				if v := fc.tr(st, a); v.S == SRec && v.Rec != "" {
+					fc.havocRecordDeep(st, v.Rec)
+				}
+			}
+		}
+	}
 	if fn, _ := fc.calleeOf(call); fn != nil && fn.Pkg() != nil {
 		pkgPath, name := funcKey(fn)
 		if cls := primitiveEffects[pkgPath+"."+name]; cls == "fswrite" {
@@ -1196,4 +1206,26 @@ func appendUnique(xs []string, x string) []string {
 		}
 	}
 	return append(xs, x)
+}
+
+// havocRecordDeep: forget everything known about a record and the records nested in it.
+func (fc *FnCtx) havocRecordDeep(st *State, rec string) {
+	delete(st.fresh, rec)
+	prefix := rec + "."
+	for k, fv := range st.env {
+		if !strings.HasPrefix(k, prefix) {
+			continue
+		}
+		switch fv.S {
+		case SInt, SBool, SStr, SSL, SIL:
+			st.env[k] = fc.freshVal(st, "ph", fv.S, fv.GT)
+		case SRec:
+			if fv.Rec != "" && fv.Rec != rec {
+				fc.havocRecordDeep(st, fv.Rec)
+			}
+		}
+	}
+	// fields never read so far must not default to zero any more: give the record a new,
+	// non-fresh identity for lazily created fields
+	st.env[rec+".$havoc"] = Val{T: fc.freshName("hv"), S: SOpaque}
 }
